@@ -222,6 +222,45 @@ def finish (st : PState) : PState :=
 /-- `p = FormatParser(s); ctx = p.parse()` gives `(parse s).ctx` and `p.max_context_size = (parse s).maxSize` -/
 def parse (s : Str) : PState := finish (s.foldl step {})
 
+/-! ## ircutils.stripFormatting (what a client shows)
+
+`stripColor` is `re.sub(r'\x03(?:\d{1,2},\d{1,2}|\d{1,2}|,\d{1,2}|)', '', s)`; the regular expression is
+deterministic enough to be run as a six-state machine (ASCII digits; `\d` also matches other Unicode
+decimal digits, which the generators avoid). -/
+
+inductive SC where
+  | plain
+  | c0        -- after \x03
+  | c1        -- \x03 and one digit
+  | c2        -- \x03 and two digits
+  | comma     -- … and a comma that is part of the code only if a digit follows
+  | b1        -- … comma and one digit
+deriving DecidableEq, Repr
+
+def scPlain (c : Char) : SC × Str := if c = Gen.colorChar then (.c0, []) else (.plain, [c])
+
+def scStep : SC → Char → SC × Str
+  | .plain, c => scPlain c
+  | .c0, c => if isDigit c then (.c1, []) else if c = ',' then (.comma, []) else scPlain c
+  | .c1, c => if isDigit c then (.c2, []) else if c = ',' then (.comma, []) else scPlain c
+  | .c2, c => if c = ',' then (.comma, []) else scPlain c
+  | .comma, c => if isDigit c then (.b1, []) else (let r := scPlain c; (r.1, ',' :: r.2))
+  | .b1, c => if isDigit c then (.plain, []) else scPlain c
+
+def scGo : SC → Str → Str
+  | .comma, [] => [',']
+  | _, [] => []
+  | st, c :: cs => (scStep st c).2 ++ scGo (scStep st c).1 cs
+
+/-- `ircutils.stripColor` -/
+def stripColor (s : Str) : Str := scGo .plain s
+
+def isFmtChar (c : Char) : Bool :=
+  c = Gen.boldChar || c = Gen.reverseChar || c = Gen.underlineChar || c = Gen.italicChar || c = Gen.resetChar
+
+/-- `ircutils.stripFormatting`: colours first, then bold, reverse, underline, italic, reset -/
+def stripFormatting (s : Str) : Str := (stripColor s).filter fun c => !isFmtChar c
+
 /-! ## ircutils.wrap -/
 
 /-- the `for chunk in chunks:` loop of `ircutils.wrap` -/
